@@ -122,9 +122,13 @@ class Check:
                 print(f"ANALYSIS-ERROR property={self.prop} {e}")
         if write:
             self._write_evidence(seed, listed, unlisted, mutation)
+        # a named violation is a report even if another rule could not interpret the
+        # (changed) code; analysis errors alone mean "the check is broken here"
+        if unlisted:
+            return 1
         if self.errors:
             return 2
-        return 1 if unlisted else 0
+        return 0
 
     def _write_evidence(self, seed, listed, unlisted, mutation):
         os.makedirs(EVIDENCE_DIR, exist_ok=True)
